@@ -134,6 +134,25 @@ def judge(label: str, cfg) -> List[Tuple[str, str, dict]]:
         for d in validate_component(cls):
             if d.severity == "error":
                 out.append((f"contract-error|{d.code}|{role}", f"{label}: {role} class {cls.__name__}: {d.code} {d.message}", case))
+    # a generated class is the same class after it has been used: run the node once (every spelling of "no data": a payload holding None
+    # and one holding NoDataType(); a float for nodes that take one; failures of the run itself are not this property's business) and
+    # lint again
+    from semantiva.context_processors import ContextType
+    from semantiva.pipeline import Payload
+
+    for datum in ((None, NoDataType(), "float") if "sleep" not in label else ()):
+        try:
+            if datum == "float":
+                from semantiva.examples.test_utils import FloatDataType
+
+                datum = FloatDataType(2.0)
+            node.process(Payload(datum, ContextType({k: v for k, v in gen.KEY_VALUES.items()})))
+        except BaseException:  # noqa: BLE001
+            pass
+    for role, cls in classes:
+        for d in validate_component(cls):
+            if d.severity == "error" and not any(o[0] == f"contract-error|{d.code}|{role}" for o in out):
+                out.append((f"contract-error|{d.code}|{role}|after-the-node-has-run", f"{label}: {role} class {cls.__name__} after a run: {d.code} {d.message}", case))
     # mirroring
     if proc is not None and not isinstance(node, (_ContextProcessorNode, _ContextDataProcessorNode)):
         pin = type(proc).input_data_type()
